@@ -77,12 +77,206 @@ fn sched_name(order: &[Stage; 4], mask: u32) -> String {
     s
 }
 
+#[derive(Clone, Copy, PartialEq)]
+enum TTy {
+    Int,
+    Bytes,
+    ListInt,
+    MapIntInt,
+    Assets,
+}
+
+/// Typed, evaluable IR expressions with parameters at the leaves: what a reduction can actually fold.
+struct TreeGen {
+    params: Vec<(String, tx3_tir::model::core::Type)>,
+}
+
+impl TreeGen {
+    fn param(&mut self, ty: tx3_tir::model::core::Type, rng: &mut Rng) -> tir::Expression {
+        // reuse an existing parameter of that type half of the time
+        let same: Vec<String> = self.params.iter().filter(|(_, t)| *t == ty).map(|(n, _)| n.clone()).collect();
+        let name = if !same.is_empty() && rng.bool() {
+            rng.pick(&same).clone()
+        } else {
+            let n = format!("p{}", self.params.len());
+            self.params.push((n.clone(), ty.clone()));
+            n
+        };
+        tir::Expression::EvalParam(Box::new(tir::Param::ExpectValue(name, ty)))
+    }
+
+    fn gen(&mut self, ty: TTy, depth: u32, rng: &mut Rng) -> tir::Expression {
+        use tir::BuiltInOp as B;
+        use tir::Expression as E;
+        use tx3_tir::model::core::Type;
+        let op = |b: B| E::EvalBuiltIn(Box::new(b));
+        let leaf = depth >= 3 || rng.chance(1, 3);
+        match ty {
+            TTy::Int => {
+                if leaf {
+                    return if rng.bool() { E::Number(rng.below(4) as i128) } else { self.param(Type::Int, rng) };
+                }
+                match rng.below(7) {
+                    0 => op(B::Add(self.gen(TTy::Int, depth + 1, rng), self.gen(TTy::Int, depth + 1, rng))),
+                    1 => op(B::Sub(self.gen(TTy::Int, depth + 1, rng), self.gen(TTy::Int, depth + 1, rng))),
+                    2 => op(B::Negate(self.gen(TTy::Int, depth + 1, rng))),
+                    3 | 4 => op(B::Property(self.gen(TTy::ListInt, depth + 1, rng), self.gen(TTy::Int, depth + 2, rng))),
+                    // value of the map entry found under a key: (map[key])[1]
+                    _ => op(B::Property(op(B::Property(self.gen(TTy::MapIntInt, depth + 1, rng), self.gen(TTy::Int, depth + 2, rng))), E::Number(1))),
+                }
+            }
+            TTy::Bytes => {
+                if leaf {
+                    if rng.bool() {
+                        let n = 1 + rng.usize(4);
+                        return E::Bytes(rng.bytes(n));
+                    }
+                    return self.param(Type::Bytes, rng);
+                }
+                op(B::Concat(self.gen(TTy::Bytes, depth + 1, rng), self.gen(TTy::Bytes, depth + 1, rng)))
+            }
+            TTy::ListInt => {
+                if !leaf && rng.chance(1, 3) {
+                    return op(B::Concat(self.gen(TTy::ListInt, depth + 1, rng), self.gen(TTy::ListInt, depth + 1, rng)));
+                }
+                E::List((0..2 + rng.usize(3)).map(|_| self.gen(TTy::Int, depth + 1, rng)).collect())
+            }
+            TTy::MapIntInt => E::Map((0..1 + rng.usize(3)).map(|_| (self.gen(TTy::Int, depth + 2, rng), self.gen(TTy::Int, depth + 1, rng))).collect()),
+            TTy::Assets => {
+                if !leaf {
+                    return match rng.below(3) {
+                        0 => op(B::Add(self.gen(TTy::Assets, depth + 1, rng), self.gen(TTy::Assets, depth + 1, rng))),
+                        1 => op(B::Sub(self.gen(TTy::Assets, depth + 1, rng), self.gen(TTy::Assets, depth + 1, rng))),
+                        _ => op(B::Negate(self.gen(TTy::Assets, depth + 1, rng))),
+                    };
+                }
+                let lovelace = rng.chance(1, 3);
+                E::Assets(vec![tir::AssetExpr {
+                    policy: if lovelace { E::None } else if rng.chance(1, 3) { self.param(Type::Bytes, rng) } else { E::Bytes(vec![rng.below(2) as u8; 28]) },
+                    asset_name: if lovelace { E::None } else if rng.chance(1, 3) { self.param(Type::Bytes, rng) } else { E::Bytes(vec![b'A' + rng.below(2) as u8]) },
+                    amount: self.gen(TTy::Int, depth + 2, rng),
+                }])
+            }
+        }
+    }
+}
+
+impl C07 {
+    /// random typed expression trees: every way of feeding the arguments (at once, after an initial
+    /// reduction, in two instalments in either order with a reduction in between) must end in the same
+    /// reduced template, or all in an error
+    fn trees(&self, ctx: &mut Ctx, idx: u64, rng: &mut Rng) {
+        use tx3_tir::model::core::Type;
+        use tx3_tir::reduce::ArgValue;
+        let mut g = TreeGen { params: vec![] };
+        let datum = tir::Expression::List(vec![g.gen(TTy::Int, 0, rng), g.gen(TTy::Bytes, 1, rng), g.gen(TTy::MapIntInt, 1, rng), g.gen(TTy::Int, 0, rng)]);
+        let amount = g.gen(TTy::Assets, 0, rng);
+        let tx = tir::Tx {
+            fees: tir::Expression::None,
+            references: vec![],
+            inputs: vec![],
+            outputs: vec![tir::Output { address: tir::Expression::Address(vec![0x60; 29]), datum, amount, optional: false }],
+            validity: None,
+            mints: vec![],
+            burns: vec![],
+            adhoc: vec![],
+            collateral: vec![],
+            signers: None,
+            metadata: vec![],
+        };
+        if g.params.is_empty() {
+            ctx.count("trees/no-params");
+            return;
+        }
+        let args: BTreeMap<String, ArgValue> = g
+            .params
+            .iter()
+            .map(|(n, t)| {
+                (n.clone(), match t {
+                    Type::Int => ArgValue::Int(rng.below(4) as i128),
+                    _ => ArgValue::Bytes(if rng.bool() { vec![rng.below(2) as u8; 28] } else { vec![b'A' + rng.below(2) as u8] }),
+                })
+            })
+            .collect();
+        let (first, second): (BTreeMap<_, _>, BTreeMap<_, _>) = {
+            let mut a = BTreeMap::new();
+            let mut b = BTreeMap::new();
+            for (k, v) in &args {
+                if rng.bool() {
+                    a.insert(k.clone(), v.clone());
+                } else {
+                    b.insert(k.clone(), v.clone());
+                }
+            }
+            (a, b)
+        };
+        let empty: BTreeMap<String, ArgValue> = BTreeMap::new();
+        // (name, [reduce first?, args1, reduce between?, args2])
+        let schedules: Vec<(&str, bool, &BTreeMap<String, ArgValue>, bool, &BTreeMap<String, ArgValue>)> = vec![
+            ("args,R", false, &args, false, &empty),
+            ("R,args,R", true, &args, false, &empty),
+            ("args[1/2],R,args[2/2],R", false, &first, true, &second),
+            ("args[2/2],R,args[1/2],R", false, &second, true, &first),
+            ("R,args[1/2],R,args[2/2],R", true, &first, true, &second),
+            ("args[1/2],args[2/2],R", false, &first, false, &second),
+        ];
+        let mut outcomes: Vec<(&str, Result<Vec<u8>, String>)> = vec![];
+        for (name, r0, a1, r1, a2) in &schedules {
+            ctx.eval();
+            let tx = tx.clone();
+            let r = crate::panics::catch(|| -> Result<Vec<u8>, String> {
+                let mut t = AnyTir::V1Beta0(tx);
+                if *r0 {
+                    t = reduce(t).map_err(|e| format!("reduce:{}", err_sig(&e.to_string())))?;
+                }
+                t = apply_args(t, a1).map_err(|e| format!("args:{}", err_sig(&e.to_string())))?;
+                if *r1 {
+                    t = reduce(t).map_err(|e| format!("reduce:{}", err_sig(&e.to_string())))?;
+                }
+                t = apply_args(t, a2).map_err(|e| format!("args:{}", err_sig(&e.to_string())))?;
+                let t = reduce(t).map_err(|e| format!("reduce:{}", err_sig(&e.to_string())))?;
+                let again = reduce(t.clone()).map_err(|e| format!("reduce-again:{}", err_sig(&e.to_string())))?;
+                let (AnyTir::V1Beta0(a), AnyTir::V1Beta0(b)) = (&t, &again);
+                // asset lists that went through arithmetic come back in hash order: compared as multisets
+                let (sa, sb) = (canon::canon_bytes(a), canon::canon_bytes(b));
+                if sa != sb {
+                    return Err("NOT-IDEMPOTENT".into());
+                }
+                Ok(sa)
+            });
+            outcomes.push((name, match r {
+                Ok(x) => x,
+                Err(p) => Err(p.signature()),
+            }));
+        }
+        let detail = || {
+            json!({"tir_hex": hex::encode(tx3_tir::encoding::to_bytes(&tx).0), "tx_debug": format!("{:?}", tx.outputs[0]).chars().take(3000).collect::<String>(), "args": format!("{args:?}"), "first_instalment": first.keys().collect::<Vec<_>>(),
+                "outcomes": outcomes.iter().map(|(n, o)| json!({"schedule": n, "outcome": match o { Ok(b) => format!("ok:{:016x}", fnv64(b)), Err(e) => format!("err:{e}") }})).collect::<Vec<_>>()})
+        };
+        if outcomes.iter().any(|(_, o)| matches!(o, Err(e) if e == "NOT-IDEMPOTENT")) {
+            ctx.violation("reduce-not-idempotent:tree", detail());
+        }
+        let oks: Vec<&Vec<u8>> = outcomes.iter().filter_map(|(_, o)| o.as_ref().ok()).collect();
+        if oks.is_empty() {
+            ctx.count("trees/all-error");
+        } else if oks.len() != outcomes.len() {
+            ctx.count("trees/mixed");
+            ctx.violation("schedule-divergence:tree:ok-vs-error", detail());
+        } else if oks.iter().any(|b| *b != oks[0]) {
+            ctx.violation("schedule-divergence:tree:results-differ", detail());
+        } else {
+            ctx.count("trees/all-ok-and-equal");
+            ctx.nontrivial(fnv64(oks[0]) ^ idx);
+        }
+    }
+}
+
 impl Property for C07 {
     fn id(&self) -> &'static str {
         "C07"
     }
     fn rule(&self) -> String {
-        "for every tx of generated programs (all core features; compiler built-ins over literals and over parameters; every third template built from asset atoms in which exactly one of policy / name / amount is a parameter) and one in-range world: all 24 orders of the stages {args, inputs, fees, compiler-ops} x all 32 subsets of reduce placements (initially and after each stage) x {arguments applied at once, arguments applied in two instalments with a reduction in between}, followed by a final reduce; a schedule is admissible when the compiler-op stage comes after the stages its operands depend on (known from the generator: after `args` when a built-in has a parameter operand). Oracle: the canonical form (map entries, UtxoSet and Assets lists sorted) of the fully reduced template and the independently decoded compiled transaction are identical across all admissible schedules; reduce(reduce(t)) = reduce(t) after every reduction performed. Non-trivial: the template uses >= 3 of {params, inputs-as-values, fees, compiler ops}; distinct = distinct (source, world).".into()
+        "for every tx of generated programs (all core features; compiler built-ins over literals and over parameters; every third template built from asset atoms in which exactly one of policy / name / amount is a parameter) and one in-range world: all 24 orders of the stages {args, inputs, fees, compiler-ops} x all 32 subsets of reduce placements (initially and after each stage) x {arguments applied at once, arguments applied in two instalments with a reduction in between}, followed by a final reduce; a schedule is admissible when the compiler-op stage comes after the stages its operands depend on (known from the generator: after `args` when a built-in has a parameter operand). Oracle: the canonical form (map entries, UtxoSet and Assets lists sorted) of the fully reduced template and the independently decoded compiled transaction are identical across all admissible schedules; reduce(reduce(t)) = reduce(t) after every reduction performed. trees: random *typed, evaluable* IR expressions (integer arithmetic, list / map / tuple lookups with parameter keys and indices, byte concatenation, asset arithmetic with parameter policies / names / amounts; small value domains so that keys collide) under six ways of feeding the arguments (at once, after an initial reduction, in two instalments in either order with a reduction in between); all must end in the same reduced template or all in an error, and reduce must be idempotent. Non-trivial: the template uses >= 3 of {params, inputs-as-values, fees, compiler ops}; distinct = distinct (source, world).".into()
     }
     fn assumptions(&self) -> Vec<String> {
         vec![
@@ -92,14 +286,17 @@ impl Property for C07 {
     }
     fn phases(&self, tier: Tier) -> Vec<Phase> {
         match tier {
-            Tier::Quick => vec![Phase::new("schedules", 150, Profile::Release).budget(240_000)],
-            Tier::Thorough => vec![Phase::new("schedules", 6_000, Profile::Release).budget(240_000)],
+            Tier::Quick => vec![Phase::new("schedules", 150, Profile::Release).budget(240_000), Phase::new("trees", 20_000, Profile::Release)],
+            Tier::Thorough => vec![Phase::new("schedules", 6_000, Profile::Release).budget(240_000), Phase::new("trees", 2_000_000, Profile::Release)],
         }
     }
     fn required_features(&self, _tier: Tier) -> Vec<String> {
-        ["schedules/admissible", "schedules/inadmissible-skipped", "idempotence-checks", "templates/with-cop-over-param", "templates/with-partial-const-atoms", "final/compiled"].iter().map(|s| s.to_string()).collect()
+        ["schedules/admissible", "schedules/inadmissible-skipped", "idempotence-checks", "templates/with-cop-over-param", "templates/with-partial-const-atoms", "final/compiled", "trees/all-ok-and-equal", "trees/all-error"].iter().map(|s| s.to_string()).collect()
     }
     fn run_case(&self, ctx: &mut Ctx, phase: &str, idx: u64, rng: &mut Rng) {
+        if phase == "trees" {
+            return self.trees(ctx, idx, rng);
+        }
         // every third template: partially constant asset atoms (what an early reduction must leave alone)
         let cfg = Cfg { risky_pct: 40, cardano_pct: 30, partial_const: idx % 3 == 0, ..Default::default() };
         let g = build::generate(rng, &cfg);
